@@ -16,7 +16,7 @@ EXPLANATION = (
     'Target.miu) are assigned from the decode of what the peer announced (PAX in the general bytes, ATR_RES / ATR_REQ) and '
     'the announcements we send take the local options; R2 the LR / BRS / bit-rate tables, PP/PPI bit positions, option '
     'clamps, WT mask and the RWT formula are mutually consistent (evaluated by the checker over the whole option grid on '
-    'the extracted expressions); R3 connect() forwards exactly the documented NFC-DEP options and the link controller reads '
+    'the extracted expressions); R3 connect() forwards exactly the documented NFC-DEP options (the keyword dictionary folded for sample option sets, the role names folded to nfc.dep.Target / Initiator) and the link controller reads '
     'the documented LLCP options; R4 the NFC-DEP payload budget equals LR minus the overhead of the DEP PDU encoder '
     '(symlen) including the optional DID/NAD bytes the role can use.  That two live stacks agree after negotiating is not '
     'decided.')
